@@ -529,6 +529,24 @@ func BuildScenario(seed int64, pow bool) (*Scenario, error) {
 	sc.eth(u2, &st, nil, d, "staking.undelegate", true)
 	d, _ = sabi.Pack("delegate", "not-a-validator", big.NewInt(1))
 	sc.eth(u2, &st, nil, d, "staking.delegate bad validator", false)
+	// one transaction, several staking events of different kinds in one receipt (a forwarding contract delegates and then
+	// undelegates part of it): the order in which the hook executes them decides whether the transaction succeeds
+	{
+		mkStep := func(method string, args ...interface{}) core.Step {
+			d, _ := sabi.Pack(method, args...)
+			return core.Step{Kind: core.KindCall, Target: st, Data: d, MustOK: true}
+		}
+		fwd := deploy(u2, core.InitCode(core.Multicall([]core.Step{
+			mkStep("delegate", vals[0].OperatorAddress, big.NewInt(100_000)),
+			mkStep("undelegate", vals[0].OperatorAddress, big.NewInt(40_000)),
+			mkStep("delegate", vals[0].OperatorAddress, big.NewInt(7)),
+			mkStep("withdraw", vals[0].OperatorAddress),
+		})), "staking forwarder")
+		sc.tx(u2, "fund staking forwarder", banktypes.NewMsgSend(u2.Acc, sdk.AccAddress(fwd.Bytes()), sdk.NewCoins(sdk.NewInt64Coin(core.BondDenom, 1_000_000))))
+		sc.eth(u2, &fwd, nil, []byte{}, "staking forwarder: delegate+undelegate+delegate+withdraw in one tx", true)
+		sc.cover("hook:staking-several-events-in-one-receipt")
+		w.Roll(a)
+	}
 	// a text proposal to vote on through the Gov contract
 	if msg, err := govtypes.NewMsgSubmitProposal(govtypes.NewTextProposal("text", "text"), sdk.NewCoins(sdk.NewInt64Coin(core.BondDenom, 10_000_000)), w.Admin.Acc); err == nil {
 		sc.tx(w.Admin, "submit text", msg)
